@@ -319,6 +319,8 @@ def d5(ctx, prog, ci):
 
 
 def run(ctx, prog):
+    from .. import universe as _uni0
+    _uni0.inline_base_entry_points(ctx, prog)
     ctx.rule('C13-D1', 'bin-edge validation: width differences pass through a sign-insensitive form before the tolerance test; consecutive edges strictly increasing')
     ctx.rule('C13-D2', 'kernel: scaling formula under lo <= x < hi (strict), x == hi -> last bin, else skip; bin count = len(edges) - 1 everywhere')
     ctx.rule('C13-D3', 'log arguments and pdf denominators have their zeros replaced first')
